@@ -3,12 +3,14 @@ package c02
 
 import (
 	"encoding/json"
+	"errors"
 	"fmt"
 	"strings"
 	"time"
 
 	"github.com/nyaruka/goflow/assets"
 	"github.com/nyaruka/goflow/flows"
+	"github.com/nyaruka/goflow/flows/engine"
 	"verif/checks/sm"
 	"verif/mc"
 	"verif/world"
@@ -35,11 +37,15 @@ func init() {
 	}
 	world.ActionSets["now"] = func(f, i int) []any {
 		return []any{
-			world.J{"uuid": world.ActUUID(f, i, 0), "type": "set_run_result", "name": "When", "value": "@(now())"},
+			world.J{"uuid": world.ActUUID(f, i, 0), "type": "set_run_result", "name": "When", "value": "@(now()) @(1234.5) @(format_datetime(now())) @(format_number(1234.5)) @(today())"},
 			world.J{"uuid": world.ActUUID(f, i, 1), "type": "set_contact_field", "field": world.J{"key": "joined", "name": "Joined"}, "value": "@(now())"},
 		}
 	}
 }
+
+// the resume menu: the default one plus a msg resume that carries a changed environment (date/time
+// formats, timezone, number format), as hosts send when the workspace settings changed
+var menu = append(append([]string{}, world.Events...), "env:alt:a")
 
 var kinds = []string{"A:ticket", "A:webhook", "A:usewh", "A:ctx", "A:now", "Eo", "Es", "W", "WT"}
 var triggers = []string{"manual", "manual_batch", "msg", "flow_action", "flow_action_batch"}
@@ -86,6 +92,9 @@ func roots(tier string) []world.Root {
 		if multi {
 			out = append(out, world.Root{Flows: &sets[i], Trigger: "manual", Opt: world.Options{MaxSteps: 8}, Step: 1})
 		}
+		// a low resume limit: whether a resume is still accepted must not depend on restarts or on
+		// earlier rejected resumes
+		out = append(out, world.Root{Flows: &sets[i], Trigger: "manual", Opt: world.Options{MaxSteps: 8, MaxResumes: 2}})
 	}
 	return out
 }
@@ -191,7 +200,7 @@ func execute(root *world.Root, events []string, pattern int, checkFix bool) *obs
 		}
 		o.sprints = append(o.sprints, sprintJSON(x.Sprint, x.Err))
 		for _, st := range hist[1:] {
-			if x.Err != nil {
+			if x.Err != nil && !isRejection(x.Err) {
 				break
 			}
 			if checkFix && o.fixFail == "" {
@@ -208,7 +217,7 @@ func execute(root *world.Root, events []string, pattern int, checkFix bool) *obs
 		// (Session.CurrentContext() between sprints) is deliberately not compared: @resume of a live
 		// session still shows the previous resume while a restored one shows none, which no template
 		// can see, so demanding equality there would be more than the property states.
-		if x.Err == nil {
+		if x.Err == nil || isRejection(x.Err) {
 			if checkFix && o.fixFail == "" {
 				o.fixFail = fixpoint(x)
 			}
@@ -254,6 +263,13 @@ func firstLineDiff(a, b string) (string, string) {
 		}
 	}
 	return "", ""
+}
+
+// isRejection reports whether the error is a rejected resume (engine error), after which the session
+// is still resumable.
+func isRejection(err error) bool {
+	var ee *engine.Error
+	return errors.As(err, &ee)
 }
 
 func diffMember(a, b []byte) string {
@@ -468,7 +484,7 @@ func run(c *mc.Ctx) {
 				}
 			}
 			if live.err == "" && live.waiting && k < depth {
-				for _, ev := range world.Events {
+				for _, ev := range menu {
 					explore(append(append([]string{}, events...), ev))
 				}
 			}
